@@ -395,6 +395,7 @@ impl World {
 				}
 			}
 			Op::PlayStream(wh, spec) => {
+				let stream_mark = streamctl::mark();
 				let (mut dec, log) = ScriptDecoder::new(content_frames(spec.content, spec.len), spec.sample_rate);
 				dec.packets = spec.packets.clone();
 				dec.seek_granularity = spec.seek_granularity;
@@ -410,8 +411,8 @@ impl World {
 				};
 				match r {
 					Some(Some(h)) => {
-						streamctl::adopt(h.verif_id());
-						self.streams.push((h.verif_id(), log.clone()));
+						streamctl::adopt(h.verif_id(), stream_mark);
+		
 						self.sounds.push(Some(SoundH::Stream(h, log)))
 					}
 					Some(None) => {
